@@ -112,7 +112,8 @@ void run_target(int tgt, const std::string &text, unsigned cfg, Src &s, Ctx &c) 
         case 3: {
             CStr b(text);
             int cnt = -5;
-            char eq = "=:"[cfg & 1], sep = "&;"[(cfg >> 1) & 1];
+            static const char seps[4] = {'&', ';', '\0', ' '};      // '\0' = "no separator": the whole string is one pair
+            char eq = (cfg & 64) ? '\0' : "=:"[cfg & 1], sep = seps[(cfg >> 1) & 3];
             qlisttbl_t *t = qparse_queries(nullptr, b.p, eq, sep, &cnt);
             c.check_san("qparse_queries");
             if (!t) c.fail(FUNC, "robust:query-null", "qparse_queries returned NULL without an allocation failure");
